@@ -237,6 +237,9 @@ def modelledSites : List (Site × SiteClass) := [
     .orderIrrelevant "libraryCopy_order_independent"),
   (⟨"pkg/exec/eval.go", "evalImportStmt", "exportValues", 1, "collect-sort"⟩,
     .sortedBeforeUse "importAll_order_independent"),
+  -- the same collect-names / sort / declare-each loop, re-declaring a loaded module's own names (C15 repair)
+  (⟨"pkg/exec/eval.go", "execAnotherModule", "exportValues", 1, "collect-sort"⟩,
+    .sortedBeforeUse "sortedKeyLoop_order_independent"),
   (⟨"pkg/exec/exec_varinput.go", "ExecExpressionInputText", "exprStrMap", 1, "collect-sort"⟩,
     .sortedBeforeUse "exprInput_order_independent"),
   (⟨"pkg/server/http_handler.go", "buildFirstValueDict", "values", 1, "collect-sort"⟩,
